@@ -992,6 +992,12 @@ pub fn gen_c16(rng: &mut Rng, d: &mut Dist, _idx: u64) -> Vec<String> {
     }
     let from_client = rng.chance(1, 2);
     bump(d, if from_client { "from-client" } else { "from-hosts" });
+    // a third of the cases: every setter on the client and every builder call at once, so that each explicit builder value
+    // (its own default included) meets a client that was configured otherwise
+    let saturated = rng.chance(1, 3);
+    if saturated {
+        bump(d, "every-option-set");
+    }
     // boundaries of the wire field (i32 milliseconds), of u64 milliseconds (2^64 ms = 18446744073709551.616 s: values just
     // above it wrap to small numbers when truncated), of u64 seconds
     let durations = [
@@ -1028,7 +1034,7 @@ pub fn gen_c16(rng: &mut Rng, d: &mut Dist, _idx: u64) -> Vec<String> {
             "retry_backoff_ms 0".to_string(),
         ];
         rng.shuffle(&mut sets);
-        let k = rng.below(sets.len() as u64 + 1) as usize;
+        let k = if saturated { sets.len() } else { rng.below(sets.len() as u64 + 1) as usize };
         for sline in sets.iter().take(k) {
             out.push(format!("OP c set {}", sline));
         }
@@ -1051,8 +1057,11 @@ pub fn gen_c16(rng: &mut Rng, d: &mut Dist, _idx: u64) -> Vec<String> {
             format!("clientid={}", h(*rng.pick(&["cid", "", "other"]))),
         ];
         let mut chosen = shuffled(rng, &all);
-        let k = rng.below(6) as usize;
+        let k = if saturated { all.len() } else { rng.below(6) as usize };
         chosen.truncate(k);
+        if saturated && rng.chance(1, 2) {
+            chosen.retain(|o| !o.starts_with("group="));
+        }
         // sometimes set one option twice: the last call must win
         if !chosen.is_empty() && rng.chance(1, 4) {
             let dup = rng.pick(&chosen[..]).clone();
@@ -1085,7 +1094,7 @@ pub fn gen_c16(rng: &mut Rng, d: &mut Dist, _idx: u64) -> Vec<String> {
             format!("partitioner={}", rng.below(5)),
         ];
         let mut chosen = shuffled(rng, &all);
-        let k = rng.below(7) as usize;
+        let k = if saturated { all.len() } else { rng.below(7) as usize };
         chosen.truncate(k);
         bump(d, &format!("builder-calls-{}", chosen.len()));
         if chosen.iter().any(|o| o.starts_with("partitioner=")) {
@@ -2028,7 +2037,33 @@ pub fn gen_c17(rng: &mut Rng, d: &mut Dist, _idx: u64) -> Vec<String> {
         base,
         lim
     ));
+    // half of the histories are disturbed: a poll (also the one that fetches a partition alone) fails with a partition error
+    // or a lost connection, or the application seeks (past the large entry, or back to it) in between
+    let disturbed = rng.chance(1, 2);
+    if disturbed {
+        bump(d, "disturbed");
+    }
     for _ in 0..(14 + rng.below(10)) {
+        if disturbed {
+            match rng.below(8) {
+                0 => {
+                    bump(d, "disturb-partition-error");
+                    out.push(format!("FAULT 1 {} {} {} 1", h("t"), rng.below(np as u64), rng.pick(&[6i64, 5, 3])));
+                }
+                1 => {
+                    bump(d, "disturb-io");
+                    out.push(format!("H {} 0", rng.pick(&["fail_send", "fail_recv"])));
+                    out.push("OP poll".into());
+                    out.push("H clear_faults".into());
+                    continue;
+                }
+                2 => {
+                    bump(d, "disturb-seek");
+                    out.push(format!("OP seek {} 0 {}", h("t"), rng.range(0, off)));
+                }
+                _ => {}
+            }
+        }
         out.push("OP poll".into());
     }
     out
@@ -2057,7 +2092,29 @@ pub fn gen_c15(rng: &mut Rng, d: &mut Dist, _idx: u64) -> Vec<String> {
     let call = |rng: &mut Rng, d: &mut Dist| -> String {
         let t = rng.pick(&cl.topics);
         let p = rng.below(t.leaders.len() as u64);
-        match rng.below(7) {
+        match rng.below(10) {
+            7 | 8 => {
+                // one call, several brokers: a record for every partition of the cluster
+                let acks = if rng.chance(1, 4) { 0 } else { 1 };
+                bump(d, if acks == 0 { "api-produce-noack-all-brokers" } else { "api-produce-acks-all-brokers" });
+                let mut line = format!("OP c produce {} 1 0", acks);
+                for t in &cl.topics {
+                    for p in 0..t.leaders.len() {
+                        line.push_str(&format!(" {} {} ~ 76{:02x}", h(&t.name), p, p));
+                    }
+                }
+                line
+            }
+            9 => {
+                bump(d, "api-fetch-all-brokers");
+                let mut line = String::from("OP c fetch_messages");
+                for t in &cl.topics {
+                    for p in 0..t.leaders.len() {
+                        line.push_str(&format!(" {} {} 0 -1", h(&t.name), p));
+                    }
+                }
+                line
+            }
             0 => {
                 bump(d, "api-offsets");
                 format!("OP c fetch_offsets {} {}", rng.pick(&[-1i64, -2]), topics.join(" "))
